@@ -4,7 +4,7 @@
    the responses) the request is accepted exactly when acc is empty or p is the latest accepted
    id; when accepted the response carries the id supplied by the id generator (non-nil and new
    by the oracle assumption, see C02_fresh_id_is_new); when rejected it names the latest. *)
-From TSS Require Import Seq proofs.Chain proofs.Inv proofs.Agree proofs.Hist proofs.Cas Http proofs.UrgencyArith proofs.HttpProps proofs.HttpReach proofs.HttpLib.
+From TSS Require Import Seq proofs.Chain proofs.Inv proofs.Agree proofs.Hist proofs.Cas Http proofs.UrgencyArith proofs.HttpProps proofs.HttpReach proofs.HttpLib AStore proofs.Pointer.
 Open Scope N_scope.
 
 Theorem C02_add_version_cas : forall k cfg h c p d E,
@@ -73,3 +73,15 @@ Theorem C02_http_add_version_cas : forall k cfg allow h c p cs E,
     (((acc = [] \/ p = latest_of acc) /\ exists xs, r = mkResp 200 (Some (e_fresh E)) None xs None [] true) \/
      (~ (acc = [] \/ p = latest_of acc) /\ r = mkResp 409 None (Some (latest_of acc)) None None [] true)).
 Proof. exact http_add_version_cas. Qed.
+
+(* "the client has no versions yet" can be read off the latest pointer, and the pointer names the newest
+   stored version: in every state any history reaches (the stored record is the abstract store's,
+   which both backends refine) *)
+Theorem C02_latest_nil_iff_no_versions : forall cfg h c x, oracle_ok h ->
+  a_cl (state_after cfg h) c = Some x -> (a_latest x = nil_id <-> a_vers x = []).
+Proof. exact latest_nil_iff_no_versions. Qed.
+
+Theorem C02_latest_is_newest_stored : forall cfg h c x, oracle_ok h ->
+  a_cl (state_after cfg h) c = Some x -> a_vers x <> [] ->
+  exists pre v, a_vers x = pre ++ [v] /\ a_latest x = v_id v.
+Proof. exact latest_is_newest_stored. Qed.
